@@ -128,13 +128,23 @@ func (UnixSecondSerializer) Scan(ctx context.Context, field *Field, dst reflect.
 func (UnixSecondSerializer) Value(ctx context.Context, field *Field, dst reflect.Value, fieldValue interface{}) (result interface{}, err error) {
 	rv := reflect.ValueOf(fieldValue)
 	switch v := fieldValue.(type) {
-	case int64, int, uint, uint64, int32, uint32, int16, uint16:
+	case nil:
+		// e.g. a field below a nil embedded pointer
+		return nil, nil
+	case int64, int, int32, int16:
 		result = time.Unix(reflect.Indirect(rv).Int(), 0).UTC()
-	case *int64, *int, *uint, *uint64, *int32, *uint32, *int16, *uint16:
+	case uint, uint64, uint32, uint16:
+		result = time.Unix(int64(reflect.Indirect(rv).Uint()), 0).UTC()
+	case *int64, *int, *int32, *int16:
 		if rv.IsZero() {
 			return nil, nil
 		}
 		result = time.Unix(reflect.Indirect(rv).Int(), 0).UTC()
+	case *uint, *uint64, *uint32, *uint16:
+		if rv.IsZero() {
+			return nil, nil
+		}
+		result = time.Unix(int64(reflect.Indirect(rv).Uint()), 0).UTC()
 	default:
 		err = fmt.Errorf("invalid field type %#v for UnixSecondSerializer, only int, uint supported", v)
 	}
@@ -167,6 +177,10 @@ func (GobSerializer) Scan(ctx context.Context, field *Field, dst reflect.Value, 
 
 // Value implements serializer interface
 func (GobSerializer) Value(ctx context.Context, field *Field, dst reflect.Value, fieldValue interface{}) (interface{}, error) {
+	if fieldValue == nil {
+		// e.g. a field below a nil embedded pointer
+		return nil, nil
+	}
 	buf := new(bytes.Buffer)
 	err := gob.NewEncoder(buf).Encode(fieldValue)
 	return buf.Bytes(), err
